@@ -7,6 +7,7 @@ import (
 	"fmt"
 	"math"
 	"net/http"
+	"slices"
 	"strings"
 
 	"cuelabs.dev/go/oci/ociregistry"
@@ -76,7 +77,9 @@ type c04run struct {
 	memberFault bool // a unify member failed a write: the members may disagree on the upload size
 	badWriter   bool // the current writer contains a member writer whose writes fail
 	hint2       int
-	faults      int // faults still allowed
+	rootGoid    int64 // the goroutine the caller's calls are made from
+	deferred    bool  // a fault hit a request the library sent from a goroutine of its own: the failure is reported by some later call
+	faults      int   // faults still allowed
 	fired       bool
 	direct      bool
 	calls       int // client calls since the last fault (liveness)
@@ -90,6 +93,7 @@ type c04run struct {
 // start request leaves a second, empty session behind that nobody knows the id of:
 // of the sessions started by the current start call, the one in use is the largest.
 func (r *c04run) truth() int64 {
+	r.settle()
 	ids := r.st.Uploads.between(r.sessFrom, r.sessTo, r.repo)
 	if len(ids) == 0 {
 		core.Harnessf("the backend has not started an upload for this session")
@@ -121,8 +125,25 @@ func (r *c04run) lastStatus() int {
 }
 
 // recoverSession: the documented way to continue after an error.
+// beginCall: the next client call starts. A failure is excused by a fault injected
+// during the call.
+func (r *c04run) beginCall() { r.fired = false }
+
+// settle lets work that the library left running in the background come to rest.
+func (r *c04run) settle() {
+	if r.env.Sched != nil {
+		r.env.Sched.Settle()
+	} else {
+		core.Settle()
+	}
+}
+
 func (r *c04run) recoverSession(why string) int64 {
 	r.env.Probe("c04:recovered-after-error")
+	r.deferred = false // (the writer it concerned is given up)
+	// whatever the party that went away had in flight is dealt with before its
+	// successor starts (the statement is about one caller at a time)
+	r.settle()
 	for attempt := 0; ; attempt++ {
 		if attempt > 12 {
 			r.env.Failf("C04/liveness/resume", "cannot resume the upload after %d attempts (%s)", attempt, why)
@@ -133,7 +154,7 @@ func (r *c04run) recoverSession(why string) int64 {
 			off = 1 // excluded case: Range cannot express one byte
 			r.env.Probe("c04:one-byte-steered")
 		}
-		r.fired = false
+		r.beginCall()
 		r.badWriter = false // the previous writer is abandoned; the plan may mark the new one
 		w, err := r.st.Reg.PushBlobChunkedResume(r.ctx, r.repo, r.id, off, r.hint)
 		r.env.Op("resume-1")
@@ -164,7 +185,7 @@ func (r *c04run) recoverSession(why string) int64 {
 			// reports, continuing from there must lead to a successful commit (checked by
 			// the caller: from now on no error is excused)
 			r.memberFault = false
-			r.fired = false
+			r.beginCall()
 			r.w = w
 			return w.Size()
 		}
@@ -178,7 +199,7 @@ func (r *c04run) recoverSession(why string) int64 {
 
 func c04(env *core.Env, kind string, faulty bool) {
 	c := env.C
-	r := &c04run{env: env, ctx: context.Background(), direct: kind == "mem" || kind == "unify"}
+	r := &c04run{env: env, ctx: context.Background(), direct: kind == "mem" || kind == "unify", rootGoid: core.Goid()}
 	if !strings.Contains(kind, "mem") && !strings.HasPrefix(kind, "unify") {
 		kind = "mem+" + kind
 	}
@@ -201,6 +222,11 @@ func c04(env *core.Env, kind string, faulty bool) {
 		}
 		r.faults--
 		r.fired = true
+		if core.Goid() != r.rootGoid {
+			// (a library that sends a chunk in the background after Write has returned)
+			r.deferred = true
+			env.Probe("c04:fault-hit-a-request-sent-in-the-background")
+		}
 		r.calls = 0
 		kinds := []simnet.FaultKind{simnet.DropRequest, simnet.DropResponse, simnet.Duplicate, simnet.DuplicateSecond, simnet.TruncateRequest}
 		if req.Method == "PUT" {
@@ -318,9 +344,10 @@ func c04(env *core.Env, kind string, faulty bool) {
 
 	failedHere := func(what string, err error) {
 		// An error is legitimate only if a fault was injected during this call.
-		if !r.fired && !r.badWriter {
+		if !r.fired && !r.badWriter && !r.deferred {
 			env.Failf("C04/"+what+"/unexpected-failure", "%s failed although no fault was injected: %v", what, err)
 		}
+		r.deferred = false
 		if r.badWriter {
 			r.memberFault = true // one member has refused data the other accepted
 		}
@@ -336,7 +363,7 @@ func c04(env *core.Env, kind string, faulty bool) {
 			}
 		}
 		chunk := r.content[pos:end]
-		r.fired = false
+		r.beginCall()
 		r.calls++
 		n, err := r.w.Write(chunk)
 		env.Op(fmt.Sprintf("write:%v", err == nil))
@@ -357,7 +384,7 @@ func c04(env *core.Env, kind string, faulty bool) {
 				// the caller tries the same Write again on the same writer: it either goes
 				// through (the first attempt never reached the registry) or fails again
 				// (it did, and the writer's offset is stale); nothing may be sent twice
-				r.fired = false
+				r.beginCall()
 				r.calls++
 				n2, err2 := r.w.Write(chunk)
 				env.Op(fmt.Sprintf("write-retry:%v", err2 == nil))
@@ -390,7 +417,7 @@ func c04(env *core.Env, kind string, faulty bool) {
 		// boundary action
 		switch c.Weighted("boundary", []int{50, 12, 12, 12, 14}) {
 		case 1, 2: // close and resume (explicit offset / ask the registry)
-			r.fired = false
+			r.beginCall()
 			err := r.w.Close()
 			env.Op(fmt.Sprintf("close:%v", err == nil))
 			if err != nil {
@@ -407,7 +434,7 @@ func c04(env *core.Env, kind string, faulty bool) {
 			if explicit {
 				off = pos
 			}
-			r.fired = false
+			r.beginCall()
 			nwr, err := r.st.Reg.PushBlobChunkedResume(r.ctx, r.repo, r.id, off, r.hint)
 			env.Op(fmt.Sprintf("resume:%v:%v", explicit, err == nil))
 			if err != nil {
@@ -426,7 +453,7 @@ func c04(env *core.Env, kind string, faulty bool) {
 			pos = r.recoverSession("client crashed")
 			env.Probe("c04:abandon-resume")
 		case 4: // stale offset probe
-			r.fired = false
+			r.beginCall()
 			if err := r.w.Close(); err != nil {
 				failedHere("Close", err)
 				pos = r.recoverSession("close failed")
@@ -520,7 +547,7 @@ func c04(env *core.Env, kind string, faulty bool) {
 		}
 		if pos < int64(L) {
 			// everything the caller wrote is either at the registry or must be re-sent
-			r.fired = false
+			r.beginCall()
 			r.calls++
 			n, err := r.w.Write(r.content[pos:])
 			env.Op(fmt.Sprintf("write-rest:%v", err == nil))
@@ -532,7 +559,7 @@ func c04(env *core.Env, kind string, faulty bool) {
 			}
 			pos = int64(L)
 		}
-		r.fired = false
+		r.beginCall()
 		r.calls++
 		desc, err := r.w.Commit(dig)
 		env.Op(fmt.Sprintf("commit:%v", err == nil))
@@ -882,6 +909,10 @@ func c04concurrentPatches(env *core.Env) {
 				accepted = append(accepted, p)
 			} else if p.viaPUT && errors.Is(p.err, ociregistry.ErrDigestInvalid) {
 				// judged below, once it is known where this request's bytes went
+			} else if errors.Is(p.err, ociregistry.ErrBlobUploadUnknown) && slices.ContainsFunc(plans, func(q *sent) bool { return q.viaPUT && q.err == nil }) {
+				// a closing request got through first: the session may be over, and a
+				// registry may say so to whatever arrives afterwards
+				env.Probe("c04:chunk-after-the-session-ended")
 			} else if !errors.Is(p.err, ociregistry.ErrRangeInvalid) {
 				env.Failf("C04/concurrent/wrong-error", "a chunk sent at offset %d was refused with %s, want RANGE_INVALID: %v", p.off, reg.CodeOf(p.err), p.err)
 			}
